@@ -81,6 +81,9 @@ func (vc *VC) event(fr *Frame, st *State, full string, args []string, argTypes .
 	sv := vc.eventCounter(name)
 	cur := vc.get(st, sv)
 	for i, a := range args {
+		if sk := fmt.Sprintf("G_sum_%s_%d", sanitizeID(name), i); vc.svSort[sk] == "Int" {
+			vc.set(st, sk, fmt.Sprintf("(+ %s %s)", vc.get(st, sk), a))
+		}
 		key := fmt.Sprintf("G_arg_%s_%d", sanitizeID(name), i)
 		if srt, ok := vc.svSort[key]; ok {
 			if srt == "(Array Int Int)" && i < len(argTypes) && argTypes[i] != nil {
